@@ -13,7 +13,7 @@ out = sys.argv[1].rstrip("/")
 meta = json.load(open(os.path.join(out, "meta.json")))
 pid = meta["property"]
 checks = sys.argv[2:] or [pid]
-name = f"{pid}-{'r2' if '/mut2/' in out else 'r3' if '/mut3/' in out else 'r4' if '/mut4/' in out else 'r5' if '/mut5/' in out else 'r6' if '/mut6/' in out else 'r7' if '/mut7/' in out else 'r8' if '/mut8/' in out else ''}{os.path.basename(out)}"
+name = f"{pid}-{'r2' if '/mut2/' in out else 'r3' if '/mut3/' in out else 'r4' if '/mut4/' in out else 'r5' if '/mut5/' in out else 'r6' if '/mut6/' in out else 'r7' if '/mut7/' in out else 'r8' if '/mut8/' in out else 'r9' if '/mut9/' in out else ''}{os.path.basename(out)}"
 wt = tempfile.mkdtemp(prefix="seed-", dir="/tmp")
 os.rmdir(wt)
 scratch = tempfile.mkdtemp(prefix="seed-out-", dir="/tmp")
